@@ -70,7 +70,7 @@ twice; core shards count only the histories of the additional depth).
 
 Measured on this sandbox (16 workers, load ~8 from other jobs):
 quick     277,260 histories, 220,015 states, 3,469 outcome signatures, ~500 CPU-s, 60 s wall
-thorough  see evidence (the previous round's version: 5.35 M histories, ~12,300 CPU-s)
+thorough  3,962,806 histories, 3,147,740 states, 4,089 outcome signatures, ~9,600 CPU-s, 950 s wall
 """
 import html as _html
 import io
